@@ -94,6 +94,20 @@ type c02World struct {
 	poolSeen  map[string]bool
 	maxJoin   map[string]serf.LamportTime // newest join intent LTime per member
 	leaveSent map[string]bool             // a leave/force-leave newer than the latest join exists somewhere
+	// claims counts every leave/force-leave ever issued about a member;
+	// ownLeave is the raw intent of a member's own graceful Leave if that was the
+	// ONLY claim ever made about it (cleared otherwise); ownLeaveSeenBy lists the
+	// replica instances (name#life) that listed the member when that intent was
+	// handed to them
+	claims         map[string]int
+	ownLeave       map[string]string
+	ownLeaveSeenBy map[string]map[string]bool
+	// mergedSince[m]: replicas that took part in a push/pull after m issued its
+	// own leave. A push/pull from a replica that already holds m as "leaving"
+	// hands the leave's time over as a JOIN intent (the mechanism of finding F1),
+	// after which the leave intent itself is stale at the receiver; such a
+	// replica is not a witness for the own-leave rule.
+	mergedSince map[string]map[string]bool
 	mon       *vkit.Monitor
 	labels    map[string]int
 }
@@ -109,6 +123,31 @@ func lives(ev []lifeEvent) int {
 		}
 	}
 	return n
+}
+
+// ownLeaveWitnessed: m's final departure was its own graceful Leave, no other
+// leave or force-leave was ever issued about it (so no replica can hold a
+// status time for it beyond its joins), and the intent was handed to a replica
+// instance that is still running and knew the member at that moment. Then the
+// intent had to be accepted there and the tombstone spreads: left everywhere.
+func ownLeaveWitnessed(w *c02World, m *replica) bool {
+	raw, ok := w.ownLeave[m.name]
+	if !ok || raw == "" || w.claims[m.name] != 1 {
+		return false
+	}
+	// "newer than its latest join": a node that came back without a snapshot and
+	// without a join intent can issue a leave that is NOT newer than a join
+	// intent of an earlier life (its clock started over)
+	var l serf.VerifMessageLeave
+	if serf.VerifDecodeMessage([]byte(raw)[1:], &l) != nil || l.LTime <= w.maxJoin[m.name] {
+		return false
+	}
+	for _, r := range w.reps {
+		if r.up && w.ownLeaveSeenBy[m.name][fmt.Sprintf("%s#%d", r.name, lives(w.events[r.idx]))] {
+			return true
+		}
+	}
+	return false
 }
 
 func rname(i int) string { return fmt.Sprintf("n%d", i) }
@@ -281,6 +320,9 @@ func (w *c02World) pushPull(a, b *replica, join bool) {
 	if !a.up || !b.up || a == b {
 		return
 	}
+	for _, ms := range w.mergedSince {
+		ms[a.name], ms[b.name] = true, true
+	}
 	// rule 1: both local states are computed before either side merges
 	sa := a.n.Delegate.LocalState(join)
 	sb := b.n.Delegate.LocalState(join)
@@ -313,7 +355,8 @@ func (w *c02World) mergeInto(r *replica, state []byte, join bool) {
 }
 
 func bodyC02(c c02Case, x *vkit.Ctx) {
-	w := &c02World{x: x, poolSeen: map[string]bool{}, maxJoin: map[string]serf.LamportTime{}, leaveSent: map[string]bool{}, labels: map[string]int{}}
+	w := &c02World{x: x, poolSeen: map[string]bool{}, maxJoin: map[string]serf.LamportTime{}, leaveSent: map[string]bool{}, labels: map[string]int{},
+		claims: map[string]int{}, ownLeave: map[string]string{}, ownLeaveSeenBy: map[string]map[string]bool{}, mergedSince: map[string]map[string]bool{}}
 	w.events = make([][]lifeEvent, c.N)
 	for i := 0; i < c.N; i++ {
 		w.reps = append(w.reps, &replica{idx: i, name: rname(i), prog: make([]int, c.N)})
@@ -328,7 +371,7 @@ func bodyC02(c c02Case, x *vkit.Ctx) {
 	w.mon = vkit.StartMonitor()
 	defer w.mon.Stop()
 
-	up := func(i, via int) bool {
+	up := func(i, via int, intent bool) bool {
 		if !w.start(i) {
 			return false
 		}
@@ -341,6 +384,12 @@ func bodyC02(c c02Case, x *vkit.Ctx) {
 				w.labels["join-via-peer"]++
 				break
 			}
+		}
+		if !intent {
+			// the memberlist-only way back in (the snapshot's automatic re-join, or a
+			// peer's reconnect): alive again, but no Serf join intent is issued
+			w.labels["rejoin-without-intent"]++
+			return true
 		}
 		if err := r.n.Serf.VerifBroadcastJoin(); err != nil {
 			x.Inconclusive("broadcastJoin: " + err.Error())
@@ -356,12 +405,12 @@ func bodyC02(c c02Case, x *vkit.Ctx) {
 		w.events[r.idx] = append(w.events[r.idx], lifeEvent{up: false})
 	}
 
-	if !up(0, 0) {
+	if !up(0, 0, true) {
 		return
 	}
 	if c.Formed {
 		for i := 1; i < c.N; i++ {
-			if !up(i, 0) {
+			if !up(i, 0, true) {
 				return
 			}
 		}
@@ -398,9 +447,18 @@ func bodyC02(c c02Case, x *vkit.Ctx) {
 			if a.up {
 				continue
 			}
-			if !up(a.idx, op.B) {
+			// one restart in four comes back without a join intent (only if a peer is
+			// there to re-join through; a lone node always announces itself)
+			peerUp := false
+			for _, r := range w.reps {
+				if r.up && r != a {
+					peerUp = true
+				}
+			}
+			if !up(a.idx, op.B, !(peerUp && op.I%4 == 3)) {
 				return
 			}
+			delete(w.ownLeave, a.name)
 			w.labels["restart"]++
 		case oLeave:
 			if !a.up {
@@ -412,8 +470,22 @@ func bodyC02(c c02Case, x *vkit.Ctx) {
 				return
 			}
 			_ = before
+			poolBefore := len(w.pool)
 			w.collect(a)
 			w.leaveSent[a.name] = true
+			// remember the member's own leave intent if nothing else was ever claimed about it
+			if w.claims[a.name] == 0 {
+				for _, it := range w.pool[poolBefore:] {
+					if it.leave && it.node == a.name {
+						w.ownLeave[a.name] = string(it.raw)
+						w.ownLeaveSeenBy[a.name] = map[string]bool{}
+						w.mergedSince[a.name] = map[string]bool{}
+					}
+				}
+			} else {
+				delete(w.ownLeave, a.name)
+			}
+			w.claims[a.name]++
 			down(a)
 			w.labels["graceful-leave"]++
 		case oCrash:
@@ -442,6 +514,8 @@ func bodyC02(c c02Case, x *vkit.Ctx) {
 			_ = a.n.Serf.RemoveFailedNode(b.name)
 			w.collect(a)
 			w.leaveSent[b.name] = true
+			w.claims[b.name]++
+			delete(w.ownLeave, b.name)
 			if b.up {
 				w.labels["force-leave-running"]++
 			} else {
@@ -470,6 +544,28 @@ func bodyC02(c c02Case, x *vkit.Ctx) {
 				dupDeliveries++
 			}
 			deliveredRaw[rk] = true
+			if known && w.ownLeave[it.node] == string(it.raw) {
+				// ... and only if this replica has been told of the member's LAST life
+				// already: an observer whose notifications lag applies the leave to the
+				// life it knows, and the later "up again / down again" notifications
+				// then legitimately end in failed
+				for mi, mr := range w.reps {
+					if mr.name != it.node {
+						continue
+					}
+					ev := w.events[mi]
+					lastUp := -1
+					for k := len(ev) - 1; k >= 0; k-- {
+						if ev[k].up {
+							lastUp = k
+							break
+						}
+					}
+					if lastUp >= 0 && a.prog[mi] >= lastUp+1 && !w.mergedSince[it.node][a.name] {
+						w.ownLeaveSeenBy[it.node][fmt.Sprintf("%s#%d", a.name, lives(w.events[a.idx]))] = true
+					}
+				}
+			}
 			refute := it.leave && it.node == a.name && known && it.ltime > ltBefore && a.n.Serf.State() == serf.SerfAlive
 			a.n.Delegate.NotifyMsg(it.raw)
 			if refute {
@@ -617,6 +713,9 @@ func bodyC02(c c02Case, x *vkit.Ctx) {
 				return
 			case !m.up && leaveAccepted[m.name] && lives(w.events[m.idx]) == 1 && st != serf.StatusLeft:
 				x.Violationf(sig("left-member-not-left"), "member %s is down and a leave newer than its latest join (%d) had been accepted by a running replica, but the replicas settle on %v", m.name, w.maxJoin[m.name], st)
+				return
+			case !m.up && ownLeaveWitnessed(w, m) && st != serf.StatusLeft:
+				x.Violationf(sig("own-leave-not-honoured"), "member %s left gracefully (the only leave claim ever made about it, Lamport time newer than any of its joins) and its leave intent was handed to a replica that is still running and listed it, but the replicas settle on %v", m.name, st)
 				return
 			case !m.up && !w.leaveSent[m.name] && st != serf.StatusFailed:
 				x.Violationf(sig("crashed-member-not-failed"), "member %s went down without any leave or force-leave, but the replicas settle on %v", m.name, st)
